@@ -95,8 +95,8 @@ theorem N3_L_fromPK2 :
 
 theorem N3_E_fromCauchy :
     [II(Gen3S.N3_E_fromCauchy_T0), II(Gen3S.N3_E_fromCauchy_T1), II(Gen3S.N3_E_fromCauchy_T2), II(Gen3S.N3_E_fromCauchy_T3), II(Gen3S.N3_E_fromCauchy_T4), II(Gen3S.N3_E_fromCauchy_T5)]
-    = [dot6 (vec6 X0 X1 X2 X3 X4 X5) (fun i => IP ip0_0 ip0_1 ip0_2 ip0_3 ip0_4 ip0_5 ip1_0 ip1_1 ip1_2 ip1_3 ip1_4 ip1_5 ip2_0 ip2_1 ip2_2 ip2_3 ip2_4 ip2_5 ip3_0 ip3_1 ip3_2 ip3_3 ip3_4 ip3_5 ip4_0 ip4_1 ip4_2 ip4_3 ip4_4 ip4_5 ip5_0 ip5_1 ip5_2 ip5_3 ip5_4 ip5_5 i 0) * II(Gen3S.N3_E_fromCauchy_den0) / 2, dot6 (vec6 X0 X1 X2 X3 X4 X5) (fun i => IP ip0_0 ip0_1 ip0_2 ip0_3 ip0_4 ip0_5 ip1_0 ip1_1 ip1_2 ip1_3 ip1_4 ip1_5 ip2_0 ip2_1 ip2_2 ip2_3 ip2_4 ip2_5 ip3_0 ip3_1 ip3_2 ip3_3 ip3_4 ip3_5 ip4_0 ip4_1 ip4_2 ip4_3 ip4_4 ip4_5 ip5_0 ip5_1 ip5_2 ip5_3 ip5_4 ip5_5 i 1) * II(Gen3S.N3_E_fromCauchy_den0) / 2, dot6 (vec6 X0 X1 X2 X3 X4 X5) (fun i => IP ip0_0 ip0_1 ip0_2 ip0_3 ip0_4 ip0_5 ip1_0 ip1_1 ip1_2 ip1_3 ip1_4 ip1_5 ip2_0 ip2_1 ip2_2 ip2_3 ip2_4 ip2_5 ip3_0 ip3_1 ip3_2 ip3_3 ip3_4 ip3_5 ip4_0 ip4_1 ip4_2 ip4_3 ip4_4 ip4_5 ip5_0 ip5_1 ip5_2 ip5_3 ip5_4 ip5_5 i 2) * II(Gen3S.N3_E_fromCauchy_den0) / 2, dot6 (vec6 X0 X1 X2 X3 X4 X5) (fun i => IP ip0_0 ip0_1 ip0_2 ip0_3 ip0_4 ip0_5 ip1_0 ip1_1 ip1_2 ip1_3 ip1_4 ip1_5 ip2_0 ip2_1 ip2_2 ip2_3 ip2_4 ip2_5 ip3_0 ip3_1 ip3_2 ip3_3 ip3_4 ip3_5 ip4_0 ip4_1 ip4_2 ip4_3 ip4_4 ip4_5 ip5_0 ip5_1 ip5_2 ip5_3 ip5_4 ip5_5 i 3) * II(Gen3S.N3_E_fromCauchy_den0) / 2, dot6 (vec6 X0 X1 X2 X3 X4 X5) (fun i => IP ip0_0 ip0_1 ip0_2 ip0_3 ip0_4 ip0_5 ip1_0 ip1_1 ip1_2 ip1_3 ip1_4 ip1_5 ip2_0 ip2_1 ip2_2 ip2_3 ip2_4 ip2_5 ip3_0 ip3_1 ip3_2 ip3_3 ip3_4 ip3_5 ip4_0 ip4_1 ip4_2 ip4_3 ip4_4 ip4_5 ip5_0 ip5_1 ip5_2 ip5_3 ip5_4 ip5_5 i 4) * II(Gen3S.N3_E_fromCauchy_den0) / 2, dot6 (vec6 X0 X1 X2 X3 X4 X5) (fun i => IP ip0_0 ip0_1 ip0_2 ip0_3 ip0_4 ip0_5 ip1_0 ip1_1 ip1_2 ip1_3 ip1_4 ip1_5 ip2_0 ip2_1 ip2_2 ip2_3 ip2_4 ip2_5 ip3_0 ip3_1 ip3_2 ip3_3 ip3_4 ip3_5 ip4_0 ip4_1 ip4_2 ip4_3 ip4_4 ip4_5 ip5_0 ip5_1 ip5_2 ip5_3 ip5_4 ip5_5 i 5) * II(Gen3S.N3_E_fromCauchy_den0) / 2] := by
-  simp only [gen_simp, IP, dot6, mat6, vec6, List.cons.injEq, and_true]
+    = [dot6 (vec6 X0 X1 X2 X3 X4 X5) (fun i => IP ip0_0 ip0_1 ip0_2 ip0_3 ip0_4 ip0_5 ip1_0 ip1_1 ip1_2 ip1_3 ip1_4 ip1_5 ip2_0 ip2_1 ip2_2 ip2_3 ip2_4 ip2_5 ip3_0 ip3_1 ip3_2 ip3_3 ip3_4 ip3_5 ip4_0 ip4_1 ip4_2 ip4_3 ip4_4 ip4_5 ip5_0 ip5_1 ip5_2 ip5_3 ip5_4 ip5_5 i 0) * (Fm F0 F1 F2 F3 F4 F5 F6 F7 F8).det / 2, dot6 (vec6 X0 X1 X2 X3 X4 X5) (fun i => IP ip0_0 ip0_1 ip0_2 ip0_3 ip0_4 ip0_5 ip1_0 ip1_1 ip1_2 ip1_3 ip1_4 ip1_5 ip2_0 ip2_1 ip2_2 ip2_3 ip2_4 ip2_5 ip3_0 ip3_1 ip3_2 ip3_3 ip3_4 ip3_5 ip4_0 ip4_1 ip4_2 ip4_3 ip4_4 ip4_5 ip5_0 ip5_1 ip5_2 ip5_3 ip5_4 ip5_5 i 1) * (Fm F0 F1 F2 F3 F4 F5 F6 F7 F8).det / 2, dot6 (vec6 X0 X1 X2 X3 X4 X5) (fun i => IP ip0_0 ip0_1 ip0_2 ip0_3 ip0_4 ip0_5 ip1_0 ip1_1 ip1_2 ip1_3 ip1_4 ip1_5 ip2_0 ip2_1 ip2_2 ip2_3 ip2_4 ip2_5 ip3_0 ip3_1 ip3_2 ip3_3 ip3_4 ip3_5 ip4_0 ip4_1 ip4_2 ip4_3 ip4_4 ip4_5 ip5_0 ip5_1 ip5_2 ip5_3 ip5_4 ip5_5 i 2) * (Fm F0 F1 F2 F3 F4 F5 F6 F7 F8).det / 2, dot6 (vec6 X0 X1 X2 X3 X4 X5) (fun i => IP ip0_0 ip0_1 ip0_2 ip0_3 ip0_4 ip0_5 ip1_0 ip1_1 ip1_2 ip1_3 ip1_4 ip1_5 ip2_0 ip2_1 ip2_2 ip2_3 ip2_4 ip2_5 ip3_0 ip3_1 ip3_2 ip3_3 ip3_4 ip3_5 ip4_0 ip4_1 ip4_2 ip4_3 ip4_4 ip4_5 ip5_0 ip5_1 ip5_2 ip5_3 ip5_4 ip5_5 i 3) * (Fm F0 F1 F2 F3 F4 F5 F6 F7 F8).det / 2, dot6 (vec6 X0 X1 X2 X3 X4 X5) (fun i => IP ip0_0 ip0_1 ip0_2 ip0_3 ip0_4 ip0_5 ip1_0 ip1_1 ip1_2 ip1_3 ip1_4 ip1_5 ip2_0 ip2_1 ip2_2 ip2_3 ip2_4 ip2_5 ip3_0 ip3_1 ip3_2 ip3_3 ip3_4 ip3_5 ip4_0 ip4_1 ip4_2 ip4_3 ip4_4 ip4_5 ip5_0 ip5_1 ip5_2 ip5_3 ip5_4 ip5_5 i 4) * (Fm F0 F1 F2 F3 F4 F5 F6 F7 F8).det / 2, dot6 (vec6 X0 X1 X2 X3 X4 X5) (fun i => IP ip0_0 ip0_1 ip0_2 ip0_3 ip0_4 ip0_5 ip1_0 ip1_1 ip1_2 ip1_3 ip1_4 ip1_5 ip2_0 ip2_1 ip2_2 ip2_3 ip2_4 ip2_5 ip3_0 ip3_1 ip3_2 ip3_3 ip3_4 ip3_5 ip4_0 ip4_1 ip4_2 ip4_3 ip4_4 ip4_5 ip5_0 ip5_1 ip5_2 ip5_3 ip5_4 ip5_5 i 5) * (Fm F0 F1 F2 F3 F4 F5 F6 F7 F8).det / 2] := by
+  simp only [gen_simp, IP, dot6, mat6, vec6, Fm, M3.ofTens, M3.det, List.cons.injEq, and_true]
   repeat' apply And.intro
   all_goals ring
 end inverse
@@ -108,45 +108,44 @@ variable (T0 T1 T2 T3 T4 T5 ip0_0 ip0_1 ip0_2 ip0_3 ip0_4 ip0_5 ip1_0 ip1_1 ip1_
 theorem N3_L_PK2_roundtrip (hinv : ∀ k j : Fin 6, dot6 (P p0_0 p0_1 p0_2 p0_3 p0_4 p0_5 p1_0 p1_1 p1_2 p1_3 p1_4 p1_5 p2_0 p2_1 p2_2 p2_3 p2_4 p2_5 p3_0 p3_1 p3_2 p3_3 p3_4 p3_5 p4_0 p4_1 p4_2 p4_3 p4_4 p4_5 p5_0 p5_1 p5_2 p5_3 p5_4 p5_5 k) (fun i => IP ip0_0 ip0_1 ip0_2 ip0_3 ip0_4 ip0_5 ip1_0 ip1_1 ip1_2 ip1_3 ip1_4 ip1_5 ip2_0 ip2_1 ip2_2 ip2_3 ip2_4 ip2_5 ip3_0 ip3_1 ip3_2 ip3_3 ip3_4 ip3_5 ip4_0 ip4_1 ip4_2 ip4_3 ip4_4 ip4_5 ip5_0 ip5_1 ip5_2 ip5_3 ip5_4 ip5_5 i j) = if k = j then 1 else 0) :
     [Gen3S.N3_L_fromPK2_T0 c c3 fn vp0 vp1 vp2 m00 m01 m02 m10 m11 m12 m20 m21 m22 e0 e1 e2 p0_0 p0_1 p0_2 p0_3 p0_4 p0_5 p1_0 p1_1 p1_2 p1_3 p1_4 p1_5 p2_0 p2_1 p2_2 p2_3 p2_4 p2_5 p3_0 p3_1 p3_2 p3_3 p3_4 p3_5 p4_0 p4_1 p4_2 p4_3 p4_4 p4_5 p5_0 p5_1 p5_2 p5_3 p5_4 p5_5 F0 F1 F2 F3 F4 F5 F6 F7 F8 (Gen3S.N3_L_toPK2_S0 c c3 fn vp0 vp1 vp2 m00 m01 m02 m10 m11 m12 m20 m21 m22 e0 e1 e2 p0_0 p0_1 p0_2 p0_3 p0_4 p0_5 p1_0 p1_1 p1_2 p1_3 p1_4 p1_5 p2_0 p2_1 p2_2 p2_3 p2_4 p2_5 p3_0 p3_1 p3_2 p3_3 p3_4 p3_5 p4_0 p4_1 p4_2 p4_3 p4_4 p4_5 p5_0 p5_1 p5_2 p5_3 p5_4 p5_5 F0 F1 F2 F3 F4 F5 F6 F7 F8 T0 T1 T2 T3 T4 T5) (Gen3S.N3_L_toPK2_S1 c c3 fn vp0 vp1 vp2 m00 m01 m02 m10 m11 m12 m20 m21 m22 e0 e1 e2 p0_0 p0_1 p0_2 p0_3 p0_4 p0_5 p1_0 p1_1 p1_2 p1_3 p1_4 p1_5 p2_0 p2_1 p2_2 p2_3 p2_4 p2_5 p3_0 p3_1 p3_2 p3_3 p3_4 p3_5 p4_0 p4_1 p4_2 p4_3 p4_4 p4_5 p5_0 p5_1 p5_2 p5_3 p5_4 p5_5 F0 F1 F2 F3 F4 F5 F6 F7 F8 T0 T1 T2 T3 T4 T5) (Gen3S.N3_L_toPK2_S2 c c3 fn vp0 vp1 vp2 m00 m01 m02 m10 m11 m12 m20 m21 m22 e0 e1 e2 p0_0 p0_1 p0_2 p0_3 p0_4 p0_5 p1_0 p1_1 p1_2 p1_3 p1_4 p1_5 p2_0 p2_1 p2_2 p2_3 p2_4 p2_5 p3_0 p3_1 p3_2 p3_3 p3_4 p3_5 p4_0 p4_1 p4_2 p4_3 p4_4 p4_5 p5_0 p5_1 p5_2 p5_3 p5_4 p5_5 F0 F1 F2 F3 F4 F5 F6 F7 F8 T0 T1 T2 T3 T4 T5) (Gen3S.N3_L_toPK2_S3 c c3 fn vp0 vp1 vp2 m00 m01 m02 m10 m11 m12 m20 m21 m22 e0 e1 e2 p0_0 p0_1 p0_2 p0_3 p0_4 p0_5 p1_0 p1_1 p1_2 p1_3 p1_4 p1_5 p2_0 p2_1 p2_2 p2_3 p2_4 p2_5 p3_0 p3_1 p3_2 p3_3 p3_4 p3_5 p4_0 p4_1 p4_2 p4_3 p4_4 p4_5 p5_0 p5_1 p5_2 p5_3 p5_4 p5_5 F0 F1 F2 F3 F4 F5 F6 F7 F8 T0 T1 T2 T3 T4 T5) (Gen3S.N3_L_toPK2_S4 c c3 fn vp0 vp1 vp2 m00 m01 m02 m10 m11 m12 m20 m21 m22 e0 e1 e2 p0_0 p0_1 p0_2 p0_3 p0_4 p0_5 p1_0 p1_1 p1_2 p1_3 p1_4 p1_5 p2_0 p2_1 p2_2 p2_3 p2_4 p2_5 p3_0 p3_1 p3_2 p3_3 p3_4 p3_5 p4_0 p4_1 p4_2 p4_3 p4_4 p4_5 p5_0 p5_1 p5_2 p5_3 p5_4 p5_5 F0 F1 F2 F3 F4 F5 F6 F7 F8 T0 T1 T2 T3 T4 T5) (Gen3S.N3_L_toPK2_S5 c c3 fn vp0 vp1 vp2 m00 m01 m02 m10 m11 m12 m20 m21 m22 e0 e1 e2 p0_0 p0_1 p0_2 p0_3 p0_4 p0_5 p1_0 p1_1 p1_2 p1_3 p1_4 p1_5 p2_0 p2_1 p2_2 p2_3 p2_4 p2_5 p3_0 p3_1 p3_2 p3_3 p3_4 p3_5 p4_0 p4_1 p4_2 p4_3 p4_4 p4_5 p5_0 p5_1 p5_2 p5_3 p5_4 p5_5 F0 F1 F2 F3 F4 F5 F6 F7 F8 T0 T1 T2 T3 T4 T5) ip0_0 ip0_1 ip0_2 ip0_3 ip0_4 ip0_5 ip1_0 ip1_1 ip1_2 ip1_3 ip1_4 ip1_5 ip2_0 ip2_1 ip2_2 ip2_3 ip2_4 ip2_5 ip3_0 ip3_1 ip3_2 ip3_3 ip3_4 ip3_5 ip4_0 ip4_1 ip4_2 ip4_3 ip4_4 ip4_5 ip5_0 ip5_1 ip5_2 ip5_3 ip5_4 ip5_5, Gen3S.N3_L_fromPK2_T1 c c3 fn vp0 vp1 vp2 m00 m01 m02 m10 m11 m12 m20 m21 m22 e0 e1 e2 p0_0 p0_1 p0_2 p0_3 p0_4 p0_5 p1_0 p1_1 p1_2 p1_3 p1_4 p1_5 p2_0 p2_1 p2_2 p2_3 p2_4 p2_5 p3_0 p3_1 p3_2 p3_3 p3_4 p3_5 p4_0 p4_1 p4_2 p4_3 p4_4 p4_5 p5_0 p5_1 p5_2 p5_3 p5_4 p5_5 F0 F1 F2 F3 F4 F5 F6 F7 F8 (Gen3S.N3_L_toPK2_S0 c c3 fn vp0 vp1 vp2 m00 m01 m02 m10 m11 m12 m20 m21 m22 e0 e1 e2 p0_0 p0_1 p0_2 p0_3 p0_4 p0_5 p1_0 p1_1 p1_2 p1_3 p1_4 p1_5 p2_0 p2_1 p2_2 p2_3 p2_4 p2_5 p3_0 p3_1 p3_2 p3_3 p3_4 p3_5 p4_0 p4_1 p4_2 p4_3 p4_4 p4_5 p5_0 p5_1 p5_2 p5_3 p5_4 p5_5 F0 F1 F2 F3 F4 F5 F6 F7 F8 T0 T1 T2 T3 T4 T5) (Gen3S.N3_L_toPK2_S1 c c3 fn vp0 vp1 vp2 m00 m01 m02 m10 m11 m12 m20 m21 m22 e0 e1 e2 p0_0 p0_1 p0_2 p0_3 p0_4 p0_5 p1_0 p1_1 p1_2 p1_3 p1_4 p1_5 p2_0 p2_1 p2_2 p2_3 p2_4 p2_5 p3_0 p3_1 p3_2 p3_3 p3_4 p3_5 p4_0 p4_1 p4_2 p4_3 p4_4 p4_5 p5_0 p5_1 p5_2 p5_3 p5_4 p5_5 F0 F1 F2 F3 F4 F5 F6 F7 F8 T0 T1 T2 T3 T4 T5) (Gen3S.N3_L_toPK2_S2 c c3 fn vp0 vp1 vp2 m00 m01 m02 m10 m11 m12 m20 m21 m22 e0 e1 e2 p0_0 p0_1 p0_2 p0_3 p0_4 p0_5 p1_0 p1_1 p1_2 p1_3 p1_4 p1_5 p2_0 p2_1 p2_2 p2_3 p2_4 p2_5 p3_0 p3_1 p3_2 p3_3 p3_4 p3_5 p4_0 p4_1 p4_2 p4_3 p4_4 p4_5 p5_0 p5_1 p5_2 p5_3 p5_4 p5_5 F0 F1 F2 F3 F4 F5 F6 F7 F8 T0 T1 T2 T3 T4 T5) (Gen3S.N3_L_toPK2_S3 c c3 fn vp0 vp1 vp2 m00 m01 m02 m10 m11 m12 m20 m21 m22 e0 e1 e2 p0_0 p0_1 p0_2 p0_3 p0_4 p0_5 p1_0 p1_1 p1_2 p1_3 p1_4 p1_5 p2_0 p2_1 p2_2 p2_3 p2_4 p2_5 p3_0 p3_1 p3_2 p3_3 p3_4 p3_5 p4_0 p4_1 p4_2 p4_3 p4_4 p4_5 p5_0 p5_1 p5_2 p5_3 p5_4 p5_5 F0 F1 F2 F3 F4 F5 F6 F7 F8 T0 T1 T2 T3 T4 T5) (Gen3S.N3_L_toPK2_S4 c c3 fn vp0 vp1 vp2 m00 m01 m02 m10 m11 m12 m20 m21 m22 e0 e1 e2 p0_0 p0_1 p0_2 p0_3 p0_4 p0_5 p1_0 p1_1 p1_2 p1_3 p1_4 p1_5 p2_0 p2_1 p2_2 p2_3 p2_4 p2_5 p3_0 p3_1 p3_2 p3_3 p3_4 p3_5 p4_0 p4_1 p4_2 p4_3 p4_4 p4_5 p5_0 p5_1 p5_2 p5_3 p5_4 p5_5 F0 F1 F2 F3 F4 F5 F6 F7 F8 T0 T1 T2 T3 T4 T5) (Gen3S.N3_L_toPK2_S5 c c3 fn vp0 vp1 vp2 m00 m01 m02 m10 m11 m12 m20 m21 m22 e0 e1 e2 p0_0 p0_1 p0_2 p0_3 p0_4 p0_5 p1_0 p1_1 p1_2 p1_3 p1_4 p1_5 p2_0 p2_1 p2_2 p2_3 p2_4 p2_5 p3_0 p3_1 p3_2 p3_3 p3_4 p3_5 p4_0 p4_1 p4_2 p4_3 p4_4 p4_5 p5_0 p5_1 p5_2 p5_3 p5_4 p5_5 F0 F1 F2 F3 F4 F5 F6 F7 F8 T0 T1 T2 T3 T4 T5) ip0_0 ip0_1 ip0_2 ip0_3 ip0_4 ip0_5 ip1_0 ip1_1 ip1_2 ip1_3 ip1_4 ip1_5 ip2_0 ip2_1 ip2_2 ip2_3 ip2_4 ip2_5 ip3_0 ip3_1 ip3_2 ip3_3 ip3_4 ip3_5 ip4_0 ip4_1 ip4_2 ip4_3 ip4_4 ip4_5 ip5_0 ip5_1 ip5_2 ip5_3 ip5_4 ip5_5, Gen3S.N3_L_fromPK2_T2 c c3 fn vp0 vp1 vp2 m00 m01 m02 m10 m11 m12 m20 m21 m22 e0 e1 e2 p0_0 p0_1 p0_2 p0_3 p0_4 p0_5 p1_0 p1_1 p1_2 p1_3 p1_4 p1_5 p2_0 p2_1 p2_2 p2_3 p2_4 p2_5 p3_0 p3_1 p3_2 p3_3 p3_4 p3_5 p4_0 p4_1 p4_2 p4_3 p4_4 p4_5 p5_0 p5_1 p5_2 p5_3 p5_4 p5_5 F0 F1 F2 F3 F4 F5 F6 F7 F8 (Gen3S.N3_L_toPK2_S0 c c3 fn vp0 vp1 vp2 m00 m01 m02 m10 m11 m12 m20 m21 m22 e0 e1 e2 p0_0 p0_1 p0_2 p0_3 p0_4 p0_5 p1_0 p1_1 p1_2 p1_3 p1_4 p1_5 p2_0 p2_1 p2_2 p2_3 p2_4 p2_5 p3_0 p3_1 p3_2 p3_3 p3_4 p3_5 p4_0 p4_1 p4_2 p4_3 p4_4 p4_5 p5_0 p5_1 p5_2 p5_3 p5_4 p5_5 F0 F1 F2 F3 F4 F5 F6 F7 F8 T0 T1 T2 T3 T4 T5) (Gen3S.N3_L_toPK2_S1 c c3 fn vp0 vp1 vp2 m00 m01 m02 m10 m11 m12 m20 m21 m22 e0 e1 e2 p0_0 p0_1 p0_2 p0_3 p0_4 p0_5 p1_0 p1_1 p1_2 p1_3 p1_4 p1_5 p2_0 p2_1 p2_2 p2_3 p2_4 p2_5 p3_0 p3_1 p3_2 p3_3 p3_4 p3_5 p4_0 p4_1 p4_2 p4_3 p4_4 p4_5 p5_0 p5_1 p5_2 p5_3 p5_4 p5_5 F0 F1 F2 F3 F4 F5 F6 F7 F8 T0 T1 T2 T3 T4 T5) (Gen3S.N3_L_toPK2_S2 c c3 fn vp0 vp1 vp2 m00 m01 m02 m10 m11 m12 m20 m21 m22 e0 e1 e2 p0_0 p0_1 p0_2 p0_3 p0_4 p0_5 p1_0 p1_1 p1_2 p1_3 p1_4 p1_5 p2_0 p2_1 p2_2 p2_3 p2_4 p2_5 p3_0 p3_1 p3_2 p3_3 p3_4 p3_5 p4_0 p4_1 p4_2 p4_3 p4_4 p4_5 p5_0 p5_1 p5_2 p5_3 p5_4 p5_5 F0 F1 F2 F3 F4 F5 F6 F7 F8 T0 T1 T2 T3 T4 T5) (Gen3S.N3_L_toPK2_S3 c c3 fn vp0 vp1 vp2 m00 m01 m02 m10 m11 m12 m20 m21 m22 e0 e1 e2 p0_0 p0_1 p0_2 p0_3 p0_4 p0_5 p1_0 p1_1 p1_2 p1_3 p1_4 p1_5 p2_0 p2_1 p2_2 p2_3 p2_4 p2_5 p3_0 p3_1 p3_2 p3_3 p3_4 p3_5 p4_0 p4_1 p4_2 p4_3 p4_4 p4_5 p5_0 p5_1 p5_2 p5_3 p5_4 p5_5 F0 F1 F2 F3 F4 F5 F6 F7 F8 T0 T1 T2 T3 T4 T5) (Gen3S.N3_L_toPK2_S4 c c3 fn vp0 vp1 vp2 m00 m01 m02 m10 m11 m12 m20 m21 m22 e0 e1 e2 p0_0 p0_1 p0_2 p0_3 p0_4 p0_5 p1_0 p1_1 p1_2 p1_3 p1_4 p1_5 p2_0 p2_1 p2_2 p2_3 p2_4 p2_5 p3_0 p3_1 p3_2 p3_3 p3_4 p3_5 p4_0 p4_1 p4_2 p4_3 p4_4 p4_5 p5_0 p5_1 p5_2 p5_3 p5_4 p5_5 F0 F1 F2 F3 F4 F5 F6 F7 F8 T0 T1 T2 T3 T4 T5) (Gen3S.N3_L_toPK2_S5 c c3 fn vp0 vp1 vp2 m00 m01 m02 m10 m11 m12 m20 m21 m22 e0 e1 e2 p0_0 p0_1 p0_2 p0_3 p0_4 p0_5 p1_0 p1_1 p1_2 p1_3 p1_4 p1_5 p2_0 p2_1 p2_2 p2_3 p2_4 p2_5 p3_0 p3_1 p3_2 p3_3 p3_4 p3_5 p4_0 p4_1 p4_2 p4_3 p4_4 p4_5 p5_0 p5_1 p5_2 p5_3 p5_4 p5_5 F0 F1 F2 F3 F4 F5 F6 F7 F8 T0 T1 T2 T3 T4 T5) ip0_0 ip0_1 ip0_2 ip0_3 ip0_4 ip0_5 ip1_0 ip1_1 ip1_2 ip1_3 ip1_4 ip1_5 ip2_0 ip2_1 ip2_2 ip2_3 ip2_4 ip2_5 ip3_0 ip3_1 ip3_2 ip3_3 ip3_4 ip3_5 ip4_0 ip4_1 ip4_2 ip4_3 ip4_4 ip4_5 ip5_0 ip5_1 ip5_2 ip5_3 ip5_4 ip5_5, Gen3S.N3_L_fromPK2_T3 c c3 fn vp0 vp1 vp2 m00 m01 m02 m10 m11 m12 m20 m21 m22 e0 e1 e2 p0_0 p0_1 p0_2 p0_3 p0_4 p0_5 p1_0 p1_1 p1_2 p1_3 p1_4 p1_5 p2_0 p2_1 p2_2 p2_3 p2_4 p2_5 p3_0 p3_1 p3_2 p3_3 p3_4 p3_5 p4_0 p4_1 p4_2 p4_3 p4_4 p4_5 p5_0 p5_1 p5_2 p5_3 p5_4 p5_5 F0 F1 F2 F3 F4 F5 F6 F7 F8 (Gen3S.N3_L_toPK2_S0 c c3 fn vp0 vp1 vp2 m00 m01 m02 m10 m11 m12 m20 m21 m22 e0 e1 e2 p0_0 p0_1 p0_2 p0_3 p0_4 p0_5 p1_0 p1_1 p1_2 p1_3 p1_4 p1_5 p2_0 p2_1 p2_2 p2_3 p2_4 p2_5 p3_0 p3_1 p3_2 p3_3 p3_4 p3_5 p4_0 p4_1 p4_2 p4_3 p4_4 p4_5 p5_0 p5_1 p5_2 p5_3 p5_4 p5_5 F0 F1 F2 F3 F4 F5 F6 F7 F8 T0 T1 T2 T3 T4 T5) (Gen3S.N3_L_toPK2_S1 c c3 fn vp0 vp1 vp2 m00 m01 m02 m10 m11 m12 m20 m21 m22 e0 e1 e2 p0_0 p0_1 p0_2 p0_3 p0_4 p0_5 p1_0 p1_1 p1_2 p1_3 p1_4 p1_5 p2_0 p2_1 p2_2 p2_3 p2_4 p2_5 p3_0 p3_1 p3_2 p3_3 p3_4 p3_5 p4_0 p4_1 p4_2 p4_3 p4_4 p4_5 p5_0 p5_1 p5_2 p5_3 p5_4 p5_5 F0 F1 F2 F3 F4 F5 F6 F7 F8 T0 T1 T2 T3 T4 T5) (Gen3S.N3_L_toPK2_S2 c c3 fn vp0 vp1 vp2 m00 m01 m02 m10 m11 m12 m20 m21 m22 e0 e1 e2 p0_0 p0_1 p0_2 p0_3 p0_4 p0_5 p1_0 p1_1 p1_2 p1_3 p1_4 p1_5 p2_0 p2_1 p2_2 p2_3 p2_4 p2_5 p3_0 p3_1 p3_2 p3_3 p3_4 p3_5 p4_0 p4_1 p4_2 p4_3 p4_4 p4_5 p5_0 p5_1 p5_2 p5_3 p5_4 p5_5 F0 F1 F2 F3 F4 F5 F6 F7 F8 T0 T1 T2 T3 T4 T5) (Gen3S.N3_L_toPK2_S3 c c3 fn vp0 vp1 vp2 m00 m01 m02 m10 m11 m12 m20 m21 m22 e0 e1 e2 p0_0 p0_1 p0_2 p0_3 p0_4 p0_5 p1_0 p1_1 p1_2 p1_3 p1_4 p1_5 p2_0 p2_1 p2_2 p2_3 p2_4 p2_5 p3_0 p3_1 p3_2 p3_3 p3_4 p3_5 p4_0 p4_1 p4_2 p4_3 p4_4 p4_5 p5_0 p5_1 p5_2 p5_3 p5_4 p5_5 F0 F1 F2 F3 F4 F5 F6 F7 F8 T0 T1 T2 T3 T4 T5) (Gen3S.N3_L_toPK2_S4 c c3 fn vp0 vp1 vp2 m00 m01 m02 m10 m11 m12 m20 m21 m22 e0 e1 e2 p0_0 p0_1 p0_2 p0_3 p0_4 p0_5 p1_0 p1_1 p1_2 p1_3 p1_4 p1_5 p2_0 p2_1 p2_2 p2_3 p2_4 p2_5 p3_0 p3_1 p3_2 p3_3 p3_4 p3_5 p4_0 p4_1 p4_2 p4_3 p4_4 p4_5 p5_0 p5_1 p5_2 p5_3 p5_4 p5_5 F0 F1 F2 F3 F4 F5 F6 F7 F8 T0 T1 T2 T3 T4 T5) (Gen3S.N3_L_toPK2_S5 c c3 fn vp0 vp1 vp2 m00 m01 m02 m10 m11 m12 m20 m21 m22 e0 e1 e2 p0_0 p0_1 p0_2 p0_3 p0_4 p0_5 p1_0 p1_1 p1_2 p1_3 p1_4 p1_5 p2_0 p2_1 p2_2 p2_3 p2_4 p2_5 p3_0 p3_1 p3_2 p3_3 p3_4 p3_5 p4_0 p4_1 p4_2 p4_3 p4_4 p4_5 p5_0 p5_1 p5_2 p5_3 p5_4 p5_5 F0 F1 F2 F3 F4 F5 F6 F7 F8 T0 T1 T2 T3 T4 T5) ip0_0 ip0_1 ip0_2 ip0_3 ip0_4 ip0_5 ip1_0 ip1_1 ip1_2 ip1_3 ip1_4 ip1_5 ip2_0 ip2_1 ip2_2 ip2_3 ip2_4 ip2_5 ip3_0 ip3_1 ip3_2 ip3_3 ip3_4 ip3_5 ip4_0 ip4_1 ip4_2 ip4_3 ip4_4 ip4_5 ip5_0 ip5_1 ip5_2 ip5_3 ip5_4 ip5_5, Gen3S.N3_L_fromPK2_T4 c c3 fn vp0 vp1 vp2 m00 m01 m02 m10 m11 m12 m20 m21 m22 e0 e1 e2 p0_0 p0_1 p0_2 p0_3 p0_4 p0_5 p1_0 p1_1 p1_2 p1_3 p1_4 p1_5 p2_0 p2_1 p2_2 p2_3 p2_4 p2_5 p3_0 p3_1 p3_2 p3_3 p3_4 p3_5 p4_0 p4_1 p4_2 p4_3 p4_4 p4_5 p5_0 p5_1 p5_2 p5_3 p5_4 p5_5 F0 F1 F2 F3 F4 F5 F6 F7 F8 (Gen3S.N3_L_toPK2_S0 c c3 fn vp0 vp1 vp2 m00 m01 m02 m10 m11 m12 m20 m21 m22 e0 e1 e2 p0_0 p0_1 p0_2 p0_3 p0_4 p0_5 p1_0 p1_1 p1_2 p1_3 p1_4 p1_5 p2_0 p2_1 p2_2 p2_3 p2_4 p2_5 p3_0 p3_1 p3_2 p3_3 p3_4 p3_5 p4_0 p4_1 p4_2 p4_3 p4_4 p4_5 p5_0 p5_1 p5_2 p5_3 p5_4 p5_5 F0 F1 F2 F3 F4 F5 F6 F7 F8 T0 T1 T2 T3 T4 T5) (Gen3S.N3_L_toPK2_S1 c c3 fn vp0 vp1 vp2 m00 m01 m02 m10 m11 m12 m20 m21 m22 e0 e1 e2 p0_0 p0_1 p0_2 p0_3 p0_4 p0_5 p1_0 p1_1 p1_2 p1_3 p1_4 p1_5 p2_0 p2_1 p2_2 p2_3 p2_4 p2_5 p3_0 p3_1 p3_2 p3_3 p3_4 p3_5 p4_0 p4_1 p4_2 p4_3 p4_4 p4_5 p5_0 p5_1 p5_2 p5_3 p5_4 p5_5 F0 F1 F2 F3 F4 F5 F6 F7 F8 T0 T1 T2 T3 T4 T5) (Gen3S.N3_L_toPK2_S2 c c3 fn vp0 vp1 vp2 m00 m01 m02 m10 m11 m12 m20 m21 m22 e0 e1 e2 p0_0 p0_1 p0_2 p0_3 p0_4 p0_5 p1_0 p1_1 p1_2 p1_3 p1_4 p1_5 p2_0 p2_1 p2_2 p2_3 p2_4 p2_5 p3_0 p3_1 p3_2 p3_3 p3_4 p3_5 p4_0 p4_1 p4_2 p4_3 p4_4 p4_5 p5_0 p5_1 p5_2 p5_3 p5_4 p5_5 F0 F1 F2 F3 F4 F5 F6 F7 F8 T0 T1 T2 T3 T4 T5) (Gen3S.N3_L_toPK2_S3 c c3 fn vp0 vp1 vp2 m00 m01 m02 m10 m11 m12 m20 m21 m22 e0 e1 e2 p0_0 p0_1 p0_2 p0_3 p0_4 p0_5 p1_0 p1_1 p1_2 p1_3 p1_4 p1_5 p2_0 p2_1 p2_2 p2_3 p2_4 p2_5 p3_0 p3_1 p3_2 p3_3 p3_4 p3_5 p4_0 p4_1 p4_2 p4_3 p4_4 p4_5 p5_0 p5_1 p5_2 p5_3 p5_4 p5_5 F0 F1 F2 F3 F4 F5 F6 F7 F8 T0 T1 T2 T3 T4 T5) (Gen3S.N3_L_toPK2_S4 c c3 fn vp0 vp1 vp2 m00 m01 m02 m10 m11 m12 m20 m21 m22 e0 e1 e2 p0_0 p0_1 p0_2 p0_3 p0_4 p0_5 p1_0 p1_1 p1_2 p1_3 p1_4 p1_5 p2_0 p2_1 p2_2 p2_3 p2_4 p2_5 p3_0 p3_1 p3_2 p3_3 p3_4 p3_5 p4_0 p4_1 p4_2 p4_3 p4_4 p4_5 p5_0 p5_1 p5_2 p5_3 p5_4 p5_5 F0 F1 F2 F3 F4 F5 F6 F7 F8 T0 T1 T2 T3 T4 T5) (Gen3S.N3_L_toPK2_S5 c c3 fn vp0 vp1 vp2 m00 m01 m02 m10 m11 m12 m20 m21 m22 e0 e1 e2 p0_0 p0_1 p0_2 p0_3 p0_4 p0_5 p1_0 p1_1 p1_2 p1_3 p1_4 p1_5 p2_0 p2_1 p2_2 p2_3 p2_4 p2_5 p3_0 p3_1 p3_2 p3_3 p3_4 p3_5 p4_0 p4_1 p4_2 p4_3 p4_4 p4_5 p5_0 p5_1 p5_2 p5_3 p5_4 p5_5 F0 F1 F2 F3 F4 F5 F6 F7 F8 T0 T1 T2 T3 T4 T5) ip0_0 ip0_1 ip0_2 ip0_3 ip0_4 ip0_5 ip1_0 ip1_1 ip1_2 ip1_3 ip1_4 ip1_5 ip2_0 ip2_1 ip2_2 ip2_3 ip2_4 ip2_5 ip3_0 ip3_1 ip3_2 ip3_3 ip3_4 ip3_5 ip4_0 ip4_1 ip4_2 ip4_3 ip4_4 ip4_5 ip5_0 ip5_1 ip5_2 ip5_3 ip5_4 ip5_5, Gen3S.N3_L_fromPK2_T5 c c3 fn vp0 vp1 vp2 m00 m01 m02 m10 m11 m12 m20 m21 m22 e0 e1 e2 p0_0 p0_1 p0_2 p0_3 p0_4 p0_5 p1_0 p1_1 p1_2 p1_3 p1_4 p1_5 p2_0 p2_1 p2_2 p2_3 p2_4 p2_5 p3_0 p3_1 p3_2 p3_3 p3_4 p3_5 p4_0 p4_1 p4_2 p4_3 p4_4 p4_5 p5_0 p5_1 p5_2 p5_3 p5_4 p5_5 F0 F1 F2 F3 F4 F5 F6 F7 F8 (Gen3S.N3_L_toPK2_S0 c c3 fn vp0 vp1 vp2 m00 m01 m02 m10 m11 m12 m20 m21 m22 e0 e1 e2 p0_0 p0_1 p0_2 p0_3 p0_4 p0_5 p1_0 p1_1 p1_2 p1_3 p1_4 p1_5 p2_0 p2_1 p2_2 p2_3 p2_4 p2_5 p3_0 p3_1 p3_2 p3_3 p3_4 p3_5 p4_0 p4_1 p4_2 p4_3 p4_4 p4_5 p5_0 p5_1 p5_2 p5_3 p5_4 p5_5 F0 F1 F2 F3 F4 F5 F6 F7 F8 T0 T1 T2 T3 T4 T5) (Gen3S.N3_L_toPK2_S1 c c3 fn vp0 vp1 vp2 m00 m01 m02 m10 m11 m12 m20 m21 m22 e0 e1 e2 p0_0 p0_1 p0_2 p0_3 p0_4 p0_5 p1_0 p1_1 p1_2 p1_3 p1_4 p1_5 p2_0 p2_1 p2_2 p2_3 p2_4 p2_5 p3_0 p3_1 p3_2 p3_3 p3_4 p3_5 p4_0 p4_1 p4_2 p4_3 p4_4 p4_5 p5_0 p5_1 p5_2 p5_3 p5_4 p5_5 F0 F1 F2 F3 F4 F5 F6 F7 F8 T0 T1 T2 T3 T4 T5) (Gen3S.N3_L_toPK2_S2 c c3 fn vp0 vp1 vp2 m00 m01 m02 m10 m11 m12 m20 m21 m22 e0 e1 e2 p0_0 p0_1 p0_2 p0_3 p0_4 p0_5 p1_0 p1_1 p1_2 p1_3 p1_4 p1_5 p2_0 p2_1 p2_2 p2_3 p2_4 p2_5 p3_0 p3_1 p3_2 p3_3 p3_4 p3_5 p4_0 p4_1 p4_2 p4_3 p4_4 p4_5 p5_0 p5_1 p5_2 p5_3 p5_4 p5_5 F0 F1 F2 F3 F4 F5 F6 F7 F8 T0 T1 T2 T3 T4 T5) (Gen3S.N3_L_toPK2_S3 c c3 fn vp0 vp1 vp2 m00 m01 m02 m10 m11 m12 m20 m21 m22 e0 e1 e2 p0_0 p0_1 p0_2 p0_3 p0_4 p0_5 p1_0 p1_1 p1_2 p1_3 p1_4 p1_5 p2_0 p2_1 p2_2 p2_3 p2_4 p2_5 p3_0 p3_1 p3_2 p3_3 p3_4 p3_5 p4_0 p4_1 p4_2 p4_3 p4_4 p4_5 p5_0 p5_1 p5_2 p5_3 p5_4 p5_5 F0 F1 F2 F3 F4 F5 F6 F7 F8 T0 T1 T2 T3 T4 T5) (Gen3S.N3_L_toPK2_S4 c c3 fn vp0 vp1 vp2 m00 m01 m02 m10 m11 m12 m20 m21 m22 e0 e1 e2 p0_0 p0_1 p0_2 p0_3 p0_4 p0_5 p1_0 p1_1 p1_2 p1_3 p1_4 p1_5 p2_0 p2_1 p2_2 p2_3 p2_4 p2_5 p3_0 p3_1 p3_2 p3_3 p3_4 p3_5 p4_0 p4_1 p4_2 p4_3 p4_4 p4_5 p5_0 p5_1 p5_2 p5_3 p5_4 p5_5 F0 F1 F2 F3 F4 F5 F6 F7 F8 T0 T1 T2 T3 T4 T5) (Gen3S.N3_L_toPK2_S5 c c3 fn vp0 vp1 vp2 m00 m01 m02 m10 m11 m12 m20 m21 m22 e0 e1 e2 p0_0 p0_1 p0_2 p0_3 p0_4 p0_5 p1_0 p1_1 p1_2 p1_3 p1_4 p1_5 p2_0 p2_1 p2_2 p2_3 p2_4 p2_5 p3_0 p3_1 p3_2 p3_3 p3_4 p3_5 p4_0 p4_1 p4_2 p4_3 p4_4 p4_5 p5_0 p5_1 p5_2 p5_3 p5_4 p5_5 F0 F1 F2 F3 F4 F5 F6 F7 F8 T0 T1 T2 T3 T4 T5) ip0_0 ip0_1 ip0_2 ip0_3 ip0_4 ip0_5 ip1_0 ip1_1 ip1_2 ip1_3 ip1_4 ip1_5 ip2_0 ip2_1 ip2_2 ip2_3 ip2_4 ip2_5 ip3_0 ip3_1 ip3_2 ip3_3 ip3_4 ip3_5 ip4_0 ip4_1 ip4_2 ip4_3 ip4_4 ip4_5 ip5_0 ip5_1 ip5_2 ip5_3 ip5_4 ip5_5]
     = [T0, T1, T2, T3, T4, T5] := by
-  have h := fun k j => hinv k j
-  simp only [P, IP, dot6, mat6, vec6] at h
-  have h00 := h 0 0
-  have h01 := h 0 1
-  have h02 := h 0 2
-  have h03 := h 0 3
-  have h04 := h 0 4
-  have h05 := h 0 5
-  have h10 := h 1 0
-  have h11 := h 1 1
-  have h12 := h 1 2
-  have h13 := h 1 3
-  have h14 := h 1 4
-  have h15 := h 1 5
-  have h20 := h 2 0
-  have h21 := h 2 1
-  have h22 := h 2 2
-  have h23 := h 2 3
-  have h24 := h 2 4
-  have h25 := h 2 5
-  have h30 := h 3 0
-  have h31 := h 3 1
-  have h32 := h 3 2
-  have h33 := h 3 3
-  have h34 := h 3 4
-  have h35 := h 3 5
-  have h40 := h 4 0
-  have h41 := h 4 1
-  have h42 := h 4 2
-  have h43 := h 4 3
-  have h44 := h 4 4
-  have h45 := h 4 5
-  have h50 := h 5 0
-  have h51 := h 5 1
-  have h52 := h 5 2
-  have h53 := h 5 3
-  have h54 := h 5 4
-  have h55 := h 5 5
-  simp only [gen_simp, List.cons.injEq, and_true, Fin.isValue, Fin.reduceEq, if_true, if_false, reduceIte] at *
+  have h00 := hinv 0 0
+  have h01 := hinv 0 1
+  have h02 := hinv 0 2
+  have h03 := hinv 0 3
+  have h04 := hinv 0 4
+  have h05 := hinv 0 5
+  have h10 := hinv 1 0
+  have h11 := hinv 1 1
+  have h12 := hinv 1 2
+  have h13 := hinv 1 3
+  have h14 := hinv 1 4
+  have h15 := hinv 1 5
+  have h20 := hinv 2 0
+  have h21 := hinv 2 1
+  have h22 := hinv 2 2
+  have h23 := hinv 2 3
+  have h24 := hinv 2 4
+  have h25 := hinv 2 5
+  have h30 := hinv 3 0
+  have h31 := hinv 3 1
+  have h32 := hinv 3 2
+  have h33 := hinv 3 3
+  have h34 := hinv 3 4
+  have h35 := hinv 3 5
+  have h40 := hinv 4 0
+  have h41 := hinv 4 1
+  have h42 := hinv 4 2
+  have h43 := hinv 4 3
+  have h44 := hinv 4 4
+  have h45 := hinv 4 5
+  have h50 := hinv 5 0
+  have h51 := hinv 5 1
+  have h52 := hinv 5 2
+  have h53 := hinv 5 3
+  have h54 := hinv 5 4
+  have h55 := hinv 5 5
+  simp only [P, IP, dot6, mat6, vec6, Fin.isValue, Fin.reduceEq, if_true, if_false, reduceIte] at h00 h01 h02 h03 h04 h05 h10 h11 h12 h13 h14 h15 h20 h21 h22 h23 h24 h25 h30 h31 h32 h33 h34 h35 h40 h41 h42 h43 h44 h45 h50 h51 h52 h53 h54 h55
+  simp only [gen_simp, List.cons.injEq, and_true]
   refine ⟨?_, ?_, ?_, ?_, ?_, ?_⟩
   · linear_combination T0 * h00 + T1 * h10 + T2 * h20 + T3 * h30 + T4 * h40 + T5 * h50
   · linear_combination T0 * h01 + T1 * h11 + T2 * h21 + T3 * h31 + T4 * h41 + T5 * h51
